@@ -28,6 +28,7 @@ TRUSTED = [
 ]
 
 BIG = 10 ** 9
+OPC = {"ok": False}
 
 
 # ---------------------------------------------------------------------------------------------
@@ -197,11 +198,19 @@ def run(ctx):
     ctx.coq_file(os.path.join(C.COQ, "props", "C20.v"))
     bad = C.hygiene()
     ctx.obligation("hygiene: no Admitted/Axiom/Parameter/... in coq/", not bad, "; ".join(bad))
+    if not ctx.quick():
+        rc, out = C.run(["coqchk", "-o", "-silent", "-Q", os.path.join(C.COQ, "theories"), "Pq", "Pq.Proofs.InterleaveProofs"], timeout=900)
+        ctx.obligation("coqchk -o Pq.Proofs.InterleaveProofs: axioms <none>", rc == 0 and "Axioms: <none>" in out, out[-1500:])
+        ctx.checker_cmds.append("coqchk -o -silent -Q coq/theories Pq Pq.Proofs.InterleaveProofs")
     C.use_shadow()
     pq = C.Pqref()
     from fastparquet import ParquetFile
     rng = ctx.rng
     quick = ctx.quick()
+    OPC["ok"] = conc.warm_opcodes()
+    ctx.extra["opcode_tracing"] = OPC["ok"]
+    if not OPC["ok"]:
+        ctx.notes.append("sys.settrace delivers no opcode events in this interpreter: bytecode-granular phases skipped")
     ctx.rule = ("datasets (single file / hive partitioned / multi-file, 2-4 row groups, int/float/str/datetime/category/nullable columns, "
                 "optional compression) x operations drawn from the property's list (to_pandas with columns/filters/categories/index, "
                 "pf[i:j:k], pf[i], iter_row_groups, head, statistics, count, columns/info, pickle round trip, part-file writers); "
@@ -272,9 +281,9 @@ def run_corpus(ctx, scratch):
         solo = Solo(path)
         ctx.count("corpus", os.path.basename(f))
         if case["mode"] == "forced":
-            check_pair(ctx, spec, path, solo, case["ops"], case["plan"], "corpus")
+            check_pair(ctx, spec, path, solo, case["ops"], case["plan"], "corpus", case.get("granularity") == "opcode")
         elif case["mode"] == "storm":
-            check_storm(ctx, spec, path, solo, case["ops"][0], case["ops"][1], case["every"], case["phase"])
+            check_storm(ctx, spec, path, solo, case["ops"][0], case["ops"][1], case["every"], case["phase"], case.get("granularity") == "opcode")
     ctx.extra["corpus_cases"] = n
 
 
@@ -320,10 +329,13 @@ def _fp_job(job):
     C.use_shadow()
     from fastparquet import ParquetFile
     warm = ParquetFile(path) if phase == "warm" else None
+    opc = phase.endswith("opcode")
+    if opc and not conc.warm_opcodes():
+        return []
     out = []
     for op in ops:
         pf = warm if warm is not None else ParquetFile(path)
-        res, changes, nlines, scr = conc.trace_footprint(pf, op)
+        res, changes, nlines, scr = conc.trace_footprint(pf, op, opcodes=opc)
         out.append((op, conc.canon(res), changes, nlines, scr))
     return out
 
@@ -344,6 +356,13 @@ def footprint_premise(ctx, pq, datasets, rng, quick):
         sels[di] = wsel
         jobs.append((path, "warm", wsel))
         owner.append(di)
+        # the same premise at bytecode granularity (every instruction of fastparquet frames) for the short operations,
+        # in the thorough tier for all
+        short = [o for o in ops if o["op"] in ("slice_only", "index", "count", "statistics", "columns", "head")]
+        osel = short[:6] if quick else ops
+        for i in range(0, len(osel), 3):
+            jobs.append((path, "fresh-opcode", osel[i:i + 3]))
+            owner.append(di)
     with mp.get_context("fork").Pool(min(8, len(jobs))) as pool:
         results = pool.map(_fp_job, jobs, chunksize=1)
     for di, (spec, path, solo) in enumerate(datasets):
@@ -357,11 +376,13 @@ def footprint_premise(ctx, pq, datasets, rng, quick):
                 case = {"footprint": phase, "dataset": spec, "op": op}
                 ctx.case(case)
                 ctx.count("footprint.op", op["op"])
+                ctx.count("footprint.granularity", "opcode" if phase.endswith("opcode") else "line")
                 ctx.count("footprint.transitions", "%d" % min(len(kinds), 9))
                 traces.append([inter.snap(fp) for _, fp in changes])
                 metas.append((case, kinds, nlines))
-                ctx.extra.setdefault("footprint_lines", 0)
-                ctx.extra["footprint_lines"] += nlines
+                fk = "footprint_opcodes" if phase.endswith("opcode") else "footprint_lines"
+                ctx.extra.setdefault(fk, 0)
+                ctx.extra[fk] += nlines
                 ctx.extra.setdefault("dtypes_overwrites_seen", 0)
                 ctx.extra["dtypes_overwrites_seen"] += scr
                 # the traced run is itself a solo/sequential run: its result must be the solo result
@@ -451,13 +472,16 @@ def write_points(pf_path, op, root=None):
     return len(changes) - 1, nlines
 
 
-def check_pair(ctx, spec, path, solo, ops, plan, what):
+def check_pair(ctx, spec, path, solo, ops, plan, what, opcodes=False):
     """one forced schedule on a fresh shared handle; both results against the solo results"""
     from fastparquet import ParquetFile
     pf = ParquetFile(path)
-    res, steps, dead = conc.forced_run(pf, ops, [list(p) for p in plan])
+    res, steps, dead = conc.forced_run(pf, ops, [list(p) for p in plan], opcodes=opcodes)
     got = [conc.canon(r) for r in res]
     case = {"mode": "forced", "dataset": spec, "ops": ops, "plan": plan}
+    if opcodes:
+        case["granularity"] = "opcode"
+        what += "-opcode"
     ctx.case(case)
     ctx.count("forced.kind", what)
     ctx.count("forced.pair", ops[0]["op"] + "|" + ops[1]["op"])
@@ -492,20 +516,21 @@ def forced_search(ctx, datasets, rng, quick):
                 wp[okey(a)] = write_points(path, a)
             nw, nl = wp[okey(a)]
             b = rng.choice(pool)
+            opc = OPC["ok"] and rng.random() < 0.4       # bytecode granularity: preempted right after the writing instruction
             ks = list(range(0, nw + 1))
             if len(ks) > 4:
                 ks = [0, 1] + sorted(rng.sample(ks[2:], 2))
             for k in ks:
-                check_pair(ctx, spec, path, solo, [a, b], [[0, k, "writes"], [1, BIG, "lines"]], "after-write-%s" % ("0" if k == 0 else "k"))
+                check_pair(ctx, spec, path, solo, [a, b], [[0, k, "writes"], [1, BIG, "lines"]], "after-write-%s" % ("0" if k == 0 else "k"), opc and k > 0)
                 done += 1
                 if k > 0:
                     # read side of the discipline: the same operation (reader of the very keys a writes) right after a's k-th write
-                    check_pair(ctx, spec, path, solo, [a, a], [[0, k, "writes"], [1, BIG, "lines"]], "after-write-k-same-op")
+                    check_pair(ctx, spec, path, solo, [a, a], [[0, k, "writes"], [1, BIG, "lines"]], "after-write-k-same-op", opc)
                     done += 1
-            # a preemption at an arbitrary line of a
+            # a preemption at an arbitrary line (instruction) of a
             if nl > 2:
-                k = rng.randrange(1, nl)
-                check_pair(ctx, spec, path, solo, [a, b], [[0, k, "lines"], [1, BIG, "lines"]], "at-line")
+                k = rng.randrange(1, nl * (4 if opc else 1))
+                check_pair(ctx, spec, path, solo, [a, b], [[0, k, "lines"], [1, BIG, "lines"]], "at-line", opc)
                 done += 1
 
 
@@ -534,14 +559,17 @@ def multi_switch(ctx, datasets, rng, quick):
                          "thread %d (%s) under a %d-switch schedule: %r, alone: %r" % (i, okey(op), len(plan), got[i], want))
 
 
-def check_storm(ctx, spec, path, solo, a, b, every, phase):
+def check_storm(ctx, spec, path, solo, a, b, every, phase, opcodes=False):
     from fastparquet import ParquetFile
     pf = ParquetFile(path)
-    ares, bres, calls, dead = conc.storm_run(pf, a, b, every=every, phase=phase)
+    ares, bres, calls, dead = conc.storm_run(pf, a, b, every=every, phase=phase, opcodes=opcodes)
     gb = conc.canon(bres)
     case = {"mode": "storm", "dataset": spec, "ops": [a, b], "every": every, "phase": phase}
+    if opcodes:
+        case["granularity"] = "opcode"
     ctx.case(case)
     ctx.count("storm.pair", a["op"] + "|" + b["op"])
+    ctx.count("storm.granularity", "opcode" if opcodes else "line")
     ctx.extra["storm_calls"] = ctx.extra.get("storm_calls", 0) + calls
     wa, wb = solo(a), solo(b)
     failed = False
@@ -584,10 +612,11 @@ def storm_search(ctx, datasets, rng, quick):
         rng.shuffle(pairs)
         # the cheap derived-handle operation against the small readers always
         pairs = [(writers[2], readers[0]), (writers[0], readers[3])] + pairs
-        for a, b in pairs[:max(2, npairs // len(datasets))]:
-            nl = conc.count_steps(ParquetFile(path), b)
+        for pi, (a, b) in enumerate(pairs[:max(2, npairs // len(datasets))]):
+            opc = OPC["ok"] and (pi % 2 == 0)
+            nl = conc.count_steps(ParquetFile(path), b, opcodes=opc)
             every = max(1, -(-nl // max_calls))
-            check_storm(ctx, spec, path, solo, a, b, every, rng.randrange(every))
+            check_storm(ctx, spec, path, solo, a, b, every, rng.randrange(every), opc)
 
 
 def stress(ctx, datasets, rng, quick):
@@ -777,9 +806,13 @@ def replay(rep):
             return bad
         path = conc.build_dataset(spec, tmp)
         solo = Solo(path)
+        opc = case.get("granularity") == "opcode"
+        if opc and not conc.warm_opcodes():
+            print("opcode tracing unavailable")
+            return 1
         if mode == "forced":
             pf = ParquetFile(path)
-            res, steps, dead = conc.forced_run(pf, case["ops"], [list(p) for p in case["plan"]])
+            res, steps, dead = conc.forced_run(pf, case["ops"], [list(p) for p in case["plan"]], opcodes=opc)
             got = [conc.canon(r) for r in res]
             bad = 0
             for i, op in enumerate(case["ops"]):
@@ -792,7 +825,7 @@ def replay(rep):
         if mode == "storm":
             pf = ParquetFile(path)
             a, b = case["ops"]
-            ares, bres, calls, dead = conc.storm_run(pf, a, b, every=case["every"], phase=case["phase"])
+            ares, bres, calls, dead = conc.storm_run(pf, a, b, every=case["every"], phase=case["phase"], opcodes=opc)
             gb = conc.canon(bres)
             wa, wb = solo(a), solo(b)
             bad = 0
